@@ -160,7 +160,9 @@ class FileResolver(Resolver):
                 # dots and slashes!
                 path = normpath(path)
 
-                if self._exclude(path):
+                # Exclude patterns are about what lies below the base directory,
+                # not the base directory itself ('.*' matches '.')
+                if path != os.curdir and self._exclude(path):
                     continue
 
                 if not exists(path):
